@@ -18,6 +18,7 @@ import Bita.Proofs.Alloc
 import Bita.Proofs.HttpBounds
 import Bita.Proofs.ScanMemory
 import Bita.Proofs.Sink
+import Bita.Proofs.ProtoSkip
 
 namespace Bita.Props.C15
 open Bita Bita.Spec
@@ -320,5 +321,41 @@ theorem limited_decomp_is_the_sink (raw : Nat → Bytes → Option Bytes) (algo 
 example : Sink.run 5 [[1, 2], [3], [4, 5]] = .ok [1, 2, 3, 4, 5] := rfl
 example : Sink.run 5 [[1, 2], [3, 4, 5, 6], [7]] = .error 1 := rfl
 example : Sink.states 5 [[1, 2], [3, 4, 5, 6], [7]] = [2] := by decide +kernel
+
+/-- **Dictionary decoding does bounded work on any bytes.**  prost's reader of the (untrusted)
+dictionary is modelled with an explicit fuel; these two theorems say the fuel is not what bounds it:
+every field read consumes at least its key byte - so a dictionary of `n` bytes is at most `n` fields,
+at every nesting level - and an unknown group (wire type 3, nested up to prost's recursion limit) is
+left strictly behind, for any bytes whatever. -/
+theorem dictionary_fields_bounded_by_bytes (forceLen : List Nat) (fuel : Nat) (b : Bytes)
+    (fs : List (Nat × Option Proto.WireVal)) (h : Proto.parseMessage forceLen fuel b = some fs) :
+    fs.length ≤ b.length :=
+  Proofs.parseMessage_field_count forceLen fuel b fs h
+
+theorem unknown_group_skip_progresses (fuel depth gtag : Nat) (b r : Bytes)
+    (h : Proto.skipGroup fuel depth gtag b = some r) : r.length < b.length :=
+  Proofs.skipGroup_shorter fuel depth gtag b r h
+
+/-- The fuel the model passes (`length + 1`) is never the reason a dictionary is refused: any larger
+fuel gives the same answer, for the top-level message (with its map field) and for skipped groups. -/
+theorem dictionary_decode_fuel_irrelevant (b : Bytes) (f : Nat) (hf : b.length < f) :
+    Proto.decodeDictionary b =
+      (Proto.parseMessage [Gen.tag_ChunkDictionary_metadata] f b).bind fun fs => Proto.mergeDictionary fs {} := by
+  unfold Proto.decodeDictionary
+  rw [Proofs.parseMessage_fuel _ (b.length + 1) f b (by omega) hf]
+
+theorem unknown_group_skip_fuel_irrelevant (f1 f2 depth gtag : Nat) (b : Bytes)
+    (h1 : b.length < f1) (h2 : b.length < f2) :
+    Proto.skipGroup f1 depth gtag b = Proto.skipGroup f2 depth gtag b :=
+  Proofs.skipGroup_fuel f1 f2 depth gtag b h1 h2
+
+example : Proto.parse [0x4b, 0x53, 0x54, 0x08, 0x01, 0x4c, 0x10, 0x05] =
+    some [(9, none), (2, some (.varint 5))] := by decide
+/-- a group nested deeper than prost's limit is refused, not followed -/
+example : Proto.skipGroup 9 2 9 [0x53, 0x5b, 0x5c, 0x54, 0x4c] = none := by decide
+example : Proto.skipGroup 9 3 9 [0x53, 0x5b, 0x5c, 0x54, 0x4c] = some [] := by decide
+/-- `skip_field` checks the limit for every inner field, not only for inner groups -/
+example : Proto.skipGroup 9 1 9 [0x08, 0x01, 0x4c] = none := by decide
+example : Proto.skipGroup 9 2 9 [0x08, 0x01, 0x4c] = some [] := by decide
 
 end Bita.Props.C15
